@@ -277,3 +277,25 @@ def run(repo: Repo, rep: Report, tier: str) -> None:
             rep.check(ok9, "C15-R9", f"lower_function_call_inline restores {tbl} from a snapshot", alts[0][:80] if ok9 else
                       f"restored from `{alts[0][:100]}`: built from the table as the body left it, so a caller's name the body re-declared keeps the body's value", inl.loc(st))
     rep.floor("C15-R9", "restore stores", n9, 2)
+
+    # ---------------- R10 --------------------------------------------------------------
+    rep.rule("C15-R10", "a value that can still be read under a name is never retyped in place: before _try_fold_projection_into_source rewrites the producer's output type it scans "
+             "every name table from which lower_identifier hands out references (parameters of the function being inlined as well as declared names) and declines "
+             "when the producer is bound there; otherwise `f(a * 2)` with body `(x | \"t\") * x` reads x on a signal its producer no longer emits")
+    li = repo.func("ExpressionLowerer.lower_identifier")
+    cli_ = canon(li)
+    tables10 = sorted({m.group(1) for r in walk_local(li.node) if isinstance(r, ast.Return) and r.value is not None
+                       for m in [re.match(r"self\.parent\.(\w+)\[", cli_.text(r.value))] if m})
+    rep.floor("C15-R10", "name tables lower_identifier returns references from", len(tables10), 2)
+    pf = repo.func("ExpressionLowerer._try_fold_projection_into_source")
+    gpf = CFG(pf.node)
+    retype = [s for s in gpf.stmts() if isinstance(s, ast.Assign) and isinstance(s.targets[0], ast.Attribute) and s.targets[0].attr == "output_type"]
+    if not retype:
+        raise AnalysisError("C15-R10: the in-place retyping store was not found in _try_fold_projection_into_source")
+    for t10 in tables10:
+        scans = [s for s in gpf.stmts() if isinstance(s, ast.For) and re.search(rf"self\.parent\.{t10}\b", norm(s.iter))
+                 and any(isinstance(x, ast.Return) and (x.value is None or (isinstance(x.value, ast.Constant) and x.value.value is None)) for x in ast.walk(s))
+                 and any(isinstance(x, ast.Compare) and "source_id" in norm(x) for x in ast.walk(s))]
+        ok10 = any(gpf.dominates(s, retype[0]) for s in scans)
+        rep.check(ok10, "C15-R10", f"the fold declines for a producer bound in `{t10}`", "scan with `return None` dominates the retyping store" if ok10 else
+                  f"`{t10}` is not scanned before `{norm(retype[0])}`: a producer bound there is retyped although the body can read it again under its old type", pf.loc(retype[0]))
